@@ -122,39 +122,48 @@ func compareBuilds(rc *runCfg, pl *plan, m *merged) error {
 		}
 		delete(m.extra, k)
 	}
-	a, b := byCfg["default"], byCfg["purego"]
-	if len(a) == 0 || len(b) == 0 {
+	a := byCfg["default"]
+	if len(a) == 0 || len(byCfg["purego"]) == 0 {
 		m.addInconclusive("transcripts of one build configuration are missing: cross-build comparison not done")
 		return nil
 	}
-	compared, limbSame := 0, 0
-	for id, pa := range a {
-		pb, ok := b[id]
-		if !ok {
+	for _, other := range []string{"purego", "386"} {
+		b := byCfg[other]
+		if len(b) == 0 {
+			if other == "386" {
+				m.addInconclusive("no transcripts from the GOARCH=386 build (cross-build or execution not possible here)")
+			}
 			continue
 		}
-		compared++
-		if pa[1] == pb[1] {
-			limbSame++
+		compared, limbSame := 0, 0
+		for id, pa := range a {
+			pb, ok := b[id]
+			if !ok {
+				continue
+			}
+			compared++
+			if pa[1] == pb[1] {
+				limbSame++
+			}
+			if pa[0] != pb[0] {
+				var cid int64
+				fmt.Sscan(id, &cid)
+				m.violations = append(m.violations, taggedViolation{Violation: mon.Violation{Case: cid, Kind: "default and " + other + " builds disagree on the value-level transcript of the same program",
+					Detail: map[string]any{"chunk": id, "default": pa[0], other: pb[0]}}, Config: other})
+			}
 		}
-		if pa[0] != pb[0] {
-			var cid int64
-			fmt.Sscan(id, &cid)
-			m.violations = append(m.violations, taggedViolation{Violation: mon.Violation{Case: cid, Kind: "default and purego builds disagree on the value-level transcript of the same program",
-				Detail: map[string]any{"chunk": id, "default": pa[0], "purego": pb[0]}}, Config: "purego"})
+		m.extra["chunks compared: default vs "+other] = compared
+		m.extra["chunks whose Multiply/Square outputs were also limb-for-limb identical, default vs "+other+" (recorded, not deciding)"] = limbSame
+		if compared == 0 {
+			m.addInconclusive("no chunk was executed under both default and " + other)
 		}
-	}
-	m.extra["chunks compared across builds"] = compared
-	m.extra["chunks whose Multiply/Square outputs were also limb-for-limb identical (recorded, not deciding)"] = limbSame
-	if compared == 0 {
-		m.addInconclusive("no chunk was executed under both builds")
 	}
 	return nil
 }
 
 func init() {
 	plans["C20"] = &plan{
-		stages:      []stage{{config: "default"}, {config: "purego"}},
+		stages:      []stage{{config: "default"}, {config: "purego"}, {config: "386"}},
 		rule:        "the same monitor runs in a worker built without tags (amd64 assembly feMul/feSquare) and in one built with -tags purego from the same working tree. Each chunk (seeded by its index) (1) evaluates Multiply and Square on 24 operand pairs drawn from the reachable-representation recipes, half of them limb-maximising (limbs at 2^51+2^32, limb0 at 2^51+19*2^32), comparing value (Bytes and raw limbs) with math/big and asserting output limbs < 2^52 in each build; (2) places out/a/b at the start or end of an mmap'ed page bordered by PROT_NONE pages for all aliasing patterns (out=a, out=b, a=b, all equal), so any access outside the 40-byte operands is a fatal fault attributed to the chunk; (3) runs a deterministic public-API program (field inversion/sqrt/wide reduction, scalar arithmetic, decoding of arbitrary bytes, all point arithmetic and all five multiplications, encodings, Montgomery form, exported coordinates) hashing every value-level output; the controller compares the per-chunk hashes across the two builds. distinct by (operation, operand values and raw limbs).",
 		assumptions: append([]string{"only the configurations this machine can execute are monitored: amd64 default and purego; field/fe_arm64.s cannot be run here"}, commonAssumptions...),
 		minEvals:    1000,
